@@ -375,18 +375,27 @@ Fixpoint sess_run {A B : Type} (thr : Qc) (calls : list call) (s : sess A B) : r
   end.
 
 (* ------------------------------------------------------------------ a hard module driven from outside *)
-(* Module.center = p (public setter), Module.add_rectangle(r), Module.recenter_rectangles() in any order
-   on one movable hard module *)
+(* Module.center = p (public setter; also p.x = .. on the Point the module holds), Module.add_rectangle(r),
+   in-place edits of a rectangle, Module.recenter_rectangles() in any order on one movable hard module *)
 Inductive rc_op : Type :=
 | RcSet (c : vec)          (* m.center = Point(...) *)
 | RcAdd (r : Rect)         (* m.add_rectangle(r) *)
+| RcPut (k : nat) (r : Rect)   (* rectangle k edited in place through its public attributes (center.x/.y, shape) *)
 | RcRecenter.              (* m.recenter_rectangles() *)
 Record rc_state : Type := mkRc { rc_centre : option vec; rc_rects : list Rect }.
+
+Fixpoint put_nth (k : nat) (r : Rect) (rs : list Rect) : list Rect :=
+  match rs, k with
+  | [], _ => []
+  | _ :: rs', O => r :: rs'
+  | r0 :: rs', S k' => r0 :: put_nth k' r rs'
+  end.
 
 Definition rc_step (op : rc_op) (st : rc_state) : res rc_state :=
   match op with
   | RcSet c => Ok (mkRc (Some c) (rc_rects st))
   | RcAdd r => Ok (mkRc (rc_centre st) (rc_rects st ++ [r]))
+  | RcPut k r => Ok (mkRc (rc_centre st) (put_nth k r (rc_rects st)))
   | RcRecenter =>
       match rc_centre st with
       | None => AssertFail            (* assert ... self.center is not None *)
